@@ -50,8 +50,8 @@ PROPS["C01"] = dict(
 )
 
 PROPS["C04"] = dict(
-    modules=["Sth.Props.C01", "Sth.Props.C08"],
-    theorems=list(CORE_RL),
+    modules=["Sth.Props.C01", "Sth.Props.C08", "Sth.Props.C04"],
+    theorems=list(CORE_RL) + ['Sth.C04_store_refines_map_partial_igc', 'Sth.C04_indexGC_stutters', 'Sth.C04_reopen_after_igc', 'Sth.C04_primaryGC_stutters'],
     runs=[dict(engine="seq", quick=400, thorough=20000, extra=["-profile", "c04"],
                nontrivial=["igc-acted", "pgc-acted", "pgc-relocated", "igc-unlinked", "pgc-unlinked"])],
     requires_ops=["igc", "pgc"],
@@ -65,8 +65,8 @@ PROPS["C04"] = dict(
 
 
 PROPS["C02"] = dict(
-    modules=["Sth.Props.C01", "Sth.Props.C08", "Sth.Props.C02"],
-    theorems=list(CORE_RL) + ["Sth.C02_store_refines_map", "Sth.C02_snapshot_eq_rescan", "Sth.C02_reopen_preserves_observations", "Sth.C02_reopen_twice"],
+    modules=["Sth.Props.C01", "Sth.Props.C08", "Sth.Props.C02", "Sth.Props.C04"],
+    theorems=list(CORE_RL) + ["Sth.C02_store_refines_map", "Sth.C02_snapshot_eq_rescan", "Sth.C02_reopen_preserves_observations", "Sth.C02_reopen_twice", "Sth.C02_store_refines_map_igc"],
     runs=[dict(engine="seq", quick=400, thorough=10000, extra=["-profile", "c02"], nontrivial=["reopen", "reopen-rescan", "reopen-badsnap", "paths"])],
     requires_ops=["close", "open", "paths", "rmsnap", "badsnap"],
     rule="C01-style traces with Close/reopen at arbitrary positions: with the snapshot, with the snapshot deleted, with a "
